@@ -43,3 +43,61 @@ def generic_run(PROP, tier, seed, ev, plan_fn, extra_assume=(), Ns_quick=(2,), N
                 rc = best(rc, tprop.run_t(PROP, tier, seed, ev, ex, plan, N=n, **w))
         fill(ev, ex, mir_s, Ns, extra_assume)
         return rc
+
+
+def crash_image_run(PROP, tier, seed, ev, ex, mode, tags=None, inst=None):
+    """image-level crash obligations (obl_crash): every cut of one operation, process-kill or power-loss
+    model, counterexamples replayed by killing the real process at every filesystem call (lib/crashplay.py)"""
+    import mprop
+    import obl_crash as C
+    import crashplay
+    if inst is not None:
+        tags = inst
+    if mode == "kill":
+        inst = [("put.finish", 2, 2, 2, "sync"), ("put.finish", 1, 2, 1, "sync"), ("put.finish", 1, 2, 2, "async"),
+                ("remove", 2, 2, 2, "sync"), ("checkpoint", 2, 2, 2, "sync")]
+        if tier == "thorough":
+            inst += [("put.finish", 2, 2, 3, "sync"), ("put.finish", 2, 2, 1, "sync"), ("put.finish", 2, 2, 2, "async"), ("remove", 2, 2, 1, "sync"),
+                     ("remove", 2, 2, 3, "sync"), ("remove_range", 2, 2, 2, "sync"), ("remove_range", 2, 1, 1, "sync"), ("checkpoint", 2, 2, 1, "sync"),
+                     ("checkpoint", 2, 2, 3, "sync")]
+    else:
+        inst = [("put.finish", 2, 2, 2, "sync"), ("put.finish", 1, 2, 1, "sync"), ("remove", 2, 2, 2, "sync"), ("checkpoint", 2, 2, 2, "sync")]
+        if tier == "thorough":
+            inst += [("put.finish", 2, 2, 3, "sync"), ("put.finish", 2, 2, 1, "sync"), ("remove", 2, 2, 1, "sync"), ("remove", 2, 2, 3, "sync"),
+                     ("remove_range", 2, 2, 2, "sync"), ("checkpoint", 2, 2, 3, "sync")]
+    if tags is not None:
+        inst = tags
+    obs = []
+    for (name, U, HU, N, sm) in inst:
+        obs.append((f"disk image at every {'kill' if mode == 'kill' else 'power-loss'} cut of {name} (U={U}, HU={HU}, N={N}, {sm})", "crash_image",
+                    (lambda a, b, c, d, e: lambda ex: C.ob_crash_image(ex, a, b, c, d, mode, e))(name, U, HU, N, sm)))
+    rc = mprop.run_m(PROP, tier, seed, ev, ex, obs, replay_fn=lambda ob: crashplay.crash_replay(ob.cex))
+    ev.functions = list(ev.functions) + ["(image level) transaction::Transaction::commit, cas::CasInner::{remove,remove_range,checkpoint} with everything they call"]
+    ev.bounds["crash image"] = ("one operation from an arbitrary store (key universe 1-2, hash universe 1-2, WAL position / snapshot version / active "
+                                "writer symbolic, N concrete per instance); a solver query after every image-changing filesystem effect of every path; "
+                                + ("process-kill model (completed calls persist)" if mode == "kill" else
+                                   "power-loss model: one free Boolean per file decides whether its unsynced bytes are lost"))
+    ev.assumptions = list(ev.assumptions) + ["image level: the durable pre-image is abstract (snapshot + base records whose replay yields the in-memory map, each "
+                                             "in the segment of its version); that the real replay computes the textbook replay of a well-formed log is C02/C10",
+                                             "image level: rename/unlink are atomic and persist in issue order"]
+    return rc
+
+
+def recovery_image_run(PROP, tier, seed, ev, ex):
+    """start-up recovery (the real Index::load) on an explicit snapshot + log image, crash cut after every effect
+    (obl_recover); counterexamples replayed by killing the real process inside a real recovery"""
+    import mprop
+    import obl_recover as R
+    import crashplay
+    inst = [(0, 1, 1, 2), (1, 1, 2, 2), (2, 2, 2, 2)]
+    if tier == "thorough":
+        inst += [(1, 2, 2, 1), (2, 2, 2, 1), (2, 2, 2, 3), (1, 2, 2, 3)]
+    obs = [(f"disk image at every crash cut of start-up recovery: snapshot + {n} log records (U={U}, HU={HU}, N={N})", "recovery_image",
+            (lambda a, b, c, d: lambda ex: R.ob_recovery_image(ex, a, b, c, d))(n, U, HU, N)) for (n, U, HU, N) in inst]
+    rc = mprop.run_m(PROP, tier, seed, ev, ex, obs, replay_fn=lambda ob: crashplay.crash_replay(ob.cex))
+    ev.functions = list(ev.functions) + ["index::manager::Index::load (+apply closure), wal::manager::WalManager::{new,replay_and_prepare}, wal::replay::WalReplayer::replay, "
+                                         "wal::storage::SegmentStorage::ensure_segment_file_exists, index::state::IndexState::{apply_logical_op,recompute_stats}, Index::checkpoint(AfterReplay)"]
+    ev.bounds["recovery image"] = ("snapshot = arbitrary invariant-satisfying index state (1-2 keys, 1-2 hashes) with symbolic version; log of 0..2 records with symbolic "
+                                   "versions/segments/operations in every grouping into segments, N concrete per instance; one query per image-changing effect of every path")
+    ev.assumptions = list(ev.assumptions) + ["recovery image: reading the snapshot file and the record reader are models here (decided in C12/C16 and C02/C10)"]
+    return rc
